@@ -24,6 +24,9 @@ CHECKS = {
  "C16": dict(cat="model_checking", ref="§5/C16",
    text="Engine.tla models the parse/validate cache as explicit LRU state; TLC checks coherence (cache[q] = PV(q)), boundedness and transparency (resp = Solo(req)) over every request sequence of length 4 over a pool of 7 (thorough: 12) requests (valid/invalid/broken documents, same text with other operation name or variables, str/bytes) for capacities 0, 1, 2, unbounded; every sequence is sent to real engines configured with cache off / lru_cache(1) / lru_cache(2) / default / a custom decorator, each response compared with the spec's prediction and with a fresh uncached engine; hit/eviction predictions are compared as coverage only.",
    technique="TLA+ cache/history model (Engine.tla) + TLC exhaustive request sequences + replay into engines with each cache configuration"),
+ "C14": dict(cat="model_checking", ref="§5/C14",
+   text="Subscription.tla models the pulled stream (produced / pulled / ended, delivered = min(pulled, produced)); TLC explores subscription documents x variables x event sequences (<= 3 events, each with its own resolver data: fine / raising / null / exception value) x every interleaving of event production, consumer pulls and source end, plus requests refused by validation or variable coercion; invariants R1_Sub and action property SubProgress; every terminal behaviour is driven through engine.subscribe() pull by pull: delivered count after each action, each response vs the big-step prediction with the payload as root value, stream end, source started exactly once / never when refused.",
+   technique="TLA+ stream model (Subscription.tla) + TLC + replay through engine.subscribe() on a controlled asyncio loop"),
 }
 NOT_YET = {}
 
